@@ -105,7 +105,7 @@ structure InvCount (s : St) : Prop where
   take : ∀ w, s.registeredTake.count w = s.firedTake.count w + s.pendTakeW.count w + s.rx.takeWs.count w
 
 theorem invCount_init : InvCount init := by
-  constructor <;> simp [init, Rx.ws, Rx.takeWs]
+  constructor <;> simp [init]
 
 theorem invCount_congr {s t : St} (h : InvCount s)
     (e1 : t.registered = s.registered) (e2 : t.fired = s.fired) (e3 : t.pendFlushW = s.pendFlushW)
@@ -141,12 +141,18 @@ theorem invCount_step (cfg : Cfg) (s : St) (l : Label) (s' : St) (h : InvCount s
     step_elim hs
     obtain ⟨e1, e2, e3, e4, e5, e6, e7, e8⟩ := trySend_count cfg s x
     exact invCount_congr h e1 e2 e3 e4 e5 e6 e7 e8
+  case dropReceiver =>
+    obtain ⟨h1, h2⟩ := h
+    step_elim hs
+    all_goals
+      constructor <;> intro w <;> have a := h1 w <;> have b := h2 w <;>
+        cases hrx : s.rx <;> simp_all [List.count_append] <;> first | omega | grind
   all_goals
     obtain ⟨h1, h2⟩ := h
     step_elim hs
     all_goals
       constructor <;> intro w <;> have a := h1 w <;> have b := h2 w <;>
-        simp_all [Rx.ws, Rx.takeWs, List.count_append] <;> omega
+        simp_all [List.count_append, List.count_cons] <;> omega
 
 theorem invBound_reachable (cfg : Cfg) (s : St) (h : Reachable cfg s) : InvBound cfg s :=
   invariant_of_step (invBound_init cfg) (invBound_step cfg) s h
